@@ -148,7 +148,7 @@ package xmss
 //@ lemma xmss.L_xorArr_cong32[XF] : forall X1:arr, X2:arr, M:arr :: (forall d_ :: 0 <= d_ && d_ < 32 ==> X1[d_] == X2[d_]) ==> spec.xorArr(X1, M, 32) == spec.xorArr(X2, M, 32)
 //@ lemma xmss.L_randF_cong[XF] uses xmss.L_addrBytes_cong,xmss.L_xorArr_cong32 : forall hf, PS:arr, A1:arr, A2:arr, X1:arr, X2:arr :: (forall k_ :: 0 <= k_ && k_ < 7 ==> A1[k_] == A2[k_]) && (forall d_ :: 0 <= d_ && d_ < 32 ==> X1[d_] == X2[d_]) ==> spec.randF(hf, PS, A1, X1) == spec.randF(hf, PS, A2, X2)
 //@ func genChain
-//@   names hashFunction:xmss.HashFunction out:[]uint8 in:[]uint8 start:uint32 steps:uint32 params:*xmss.WOTSParams pubSeed:[]uint8 addr:*[8]uint32 |  | j:uint32@1i i:uint32@2i | 6b69f96b 1595b12e
+//@   names hashFunction:xmss.HashFunction out:[]uint8 in:[]uint8 start:uint32 steps:uint32 params:*xmss.WOTSParams pubSeed:[]uint8 addr:*[8]uint32 |  | j:uint32@1i i:uint32@2i | 6b69f96b 1595b12e:SetHashAddr,hashF
 //@   alias in out same
 //@   use xmss.L_randF_cong
 //@   uselate xmss.L_chain_cong2
@@ -202,7 +202,7 @@ package xmss
 //@ pred wpkNode(hf, pubSeed, A, sig, msg, p, i) := spec.wpkNode(hf, spec.sub(pubSeed, 32), A, sig, msg, p.logW, p.w, p.len1, wShift(p), wBytes(p), i)
 //@ pred wpkByte(hf, pubSeed, A, sig, msg, p, pp) := wpkNode(hf, pubSeed, A, sig, msg, p, pp/32)[pp%32]
 //@ func wotsPKFromSig
-//@   names hashfunction:xmss.HashFunction pk:[]uint8 sig:[]uint8 msg:[]uint8 wotsParams:*xmss.WOTSParams pubSeed:[]uint8 addr:*[8]uint32 |  | XMSSWOTSLEN:uint32 XMSSWOTSLEN1:uint32 XMSSWOTSLEN2:uint32 XMSSWOTSLOGW:uint32 XMSSWOTSW:uint32 XMSSN:uint32 baseW:[]uint8 cSum:uint32 cSumBytes:[]uint8 cSumBaseW:[]uint8 i:uint32@1i i:uint32@2i i:uint32@3i offset:uint32 | 0ec730cf 5322ee08 f8425b1b
+//@   names hashfunction:xmss.HashFunction pk:[]uint8 sig:[]uint8 msg:[]uint8 wotsParams:*xmss.WOTSParams pubSeed:[]uint8 addr:*[8]uint32 |  | XMSSWOTSLEN:uint32 XMSSWOTSLEN1:uint32 XMSSWOTSLEN2:uint32 XMSSWOTSLOGW:uint32 XMSSWOTSW:uint32 XMSSN:uint32 baseW:[]uint8 cSum:uint32 cSumBytes:[]uint8 cSumBaseW:[]uint8 i:uint32@1i i:uint32@2i i:uint32@3i offset:uint32 | 0ec730cf 5322ee08 f8425b1b:SetChainAddr,genChain
 //@   use xmss.L_chain_cong2
 //@   uselate xmss.L_wpkNode_congA
 //@   hide spec.chain
@@ -242,7 +242,7 @@ package xmss
 //@ pred ltab(len, t, l) := (len == 67 && ((t == 0 && l == 67) || (t == 1 && l == 34) || (t == 2 && l == 17) || (t == 3 && l == 9) || (t == 4 && l == 5) || (t == 5 && l == 3) || (t == 6 && l == 2) || (t == 7 && l == 1))) || (len == 133 && ((t == 0 && l == 133) || (t == 1 && l == 67) || (t == 2 && l == 34) || (t == 3 && l == 17) || (t == 4 && l == 9) || (t == 5 && l == 5) || (t == 6 && l == 3) || (t == 7 && l == 2) || (t == 8 && l == 1))) || (len == 34 && ((t == 0 && l == 34) || (t == 1 && l == 17) || (t == 2 && l == 9) || (t == 3 && l == 5) || (t == 4 && l == 3) || (t == 5 && l == 2) || (t == 6 && l == 1)))
 //@ pred ltreeT(len) := ite(len == 67, 7, ite(len == 133, 8, 6))
 //@ func lTree
-//@   names hashFunction:xmss.HashFunction params:*xmss.WOTSParams leaf:[]uint8 wotsPK:[]uint8 pubSeed:[]uint8 addr:*[8]uint32 |  | l:uint32 n:uint32 height:uint32 bound:uint32 i:uint32@2i outStartOffset:uint32 inStartOffset:uint32 destStartOffset:uint32 srcStartOffset:uint32 | 2e38e16e 1274761d
+//@   names hashFunction:xmss.HashFunction params:*xmss.WOTSParams leaf:[]uint8 wotsPK:[]uint8 pubSeed:[]uint8 addr:*[8]uint32 |  | l:uint32 n:uint32 height:uint32 bound:uint32 i:uint32@2i outStartOffset:uint32 inStartOffset:uint32 destStartOffset:uint32 srcStartOffset:uint32 | 2e38e16e:SetTreeHeight,SetTreeIndex,hashH 1274761d:SetTreeIndex,hashH
 //@   nooverflow
 //@   use xmss.L_randHash_cong
 //@   uselate xmss.L_lnode_cong2
@@ -272,7 +272,7 @@ package xmss
 //@ pred bufAuth(buffer, lo, authpath, k) := forall q_ :: 0 <= q_ && q_ < 32 ==> buffer[lo+q_] == authpath[32*k+q_]
 
 //@ func validateAuthPath
-//@   names hashFunc:xmss.HashFunction root:[]uint8 leaf:[]uint8 leafIdx:uint32 authpath:[]uint8 n:uint32 h:uint32 pub_seed:[]uint8 addr:*[8]uint32 |  | buffer:[]uint8 j:uint32@1i j:uint32@2i j:uint32@3i j:uint32@4i authPathOffset:uint32 i:uint32@5i j:uint32@6i j:uint32@7i | 9fad4850 7a168dd4 a939f01f 82764f5e 7713306c 75e64740 d0b65a53
+//@   names hashFunc:xmss.HashFunction root:[]uint8 leaf:[]uint8 leafIdx:uint32 authpath:[]uint8 n:uint32 h:uint32 pub_seed:[]uint8 addr:*[8]uint32 |  | buffer:[]uint8 j:uint32@1i j:uint32@2i j:uint32@3i j:uint32@4i authPathOffset:uint32 i:uint32@5i j:uint32@6i j:uint32@7i | 9fad4850 7a168dd4 a939f01f 82764f5e 7713306c:SetTreeHeight,SetTreeIndex,hashH 75e64740 d0b65a53
 //@   props C04 C01 C06
 //@   pure
 //@   use xmss.L_randHash_cong
@@ -425,7 +425,7 @@ package xmss
 //@   ensures bdsShape(result, height)
 
 //@ func treeHashSetup
-//@   names hashFunction:xmss.HashFunction node:[]uint8 index:uint32 bdsState:*xmss.BDSState skSeed:[]uint8 xmssParams:*xmss.XMSSParams pubSeed:[]uint8 addr:[]uint32 |  | n:uint32 h:uint32 k:uint32 otsAddr:[8]uint32 lTreeAddr:[8]uint32 nodeAddr:[8]uint32 lastNode:uint32 bound:uint32 stack:[]uint8 stackLevels:[]uint32 stackOffset:uint32 nodeH:uint32 i:uint32@1i i:uint32 authStart:uint32 stackStart:uint32 stackStart:uint32 retainStart:uint32 stackStart:uint32 stackStart:uint32 | 66afe6f4 f2bff18f a728b290
+//@   names hashFunction:xmss.HashFunction node:[]uint8 index:uint32 bdsState:*xmss.BDSState skSeed:[]uint8 xmssParams:*xmss.XMSSParams pubSeed:[]uint8 addr:[]uint32 |  | n:uint32 h:uint32 k:uint32 otsAddr:[8]uint32 lTreeAddr:[8]uint32 nodeAddr:[8]uint32 lastNode:uint32 bound:uint32 stack:[]uint8 stackLevels:[]uint32 stackOffset:uint32 nodeH:uint32 i:uint32@1i i:uint32 authStart:uint32 stackStart:uint32 stackStart:uint32 retainStart:uint32 stackStart:uint32 stackStart:uint32 | 66afe6f4 f2bff18f:SetLTreeAddr,SetOTSAddr,SetTreeHeight,SetTreeIndex,genLeafWOTS,hashH a728b290:SetTreeHeight,SetTreeIndex,hashH
 //@   reads addr[0:3]
 //@   trusted "BDS traversal internals: behaviour decided by the bounded label run (C01); frame and purity by the effects back end"
 //@   pure
@@ -441,7 +441,7 @@ package xmss
 //@   assigns bdsAll(bdsState)
 
 //@ func bdsTreeHashUpdate
-//@   names hashFunction:xmss.HashFunction bdsState:*xmss.BDSState updates:uint32 skSeed:[]uint8 params:*xmss.XMSSParams pubSeed:[]uint8 addr:*[8]uint32 |  | h:uint32 k:uint32 used:uint32 lMin:uint32 level:uint32 low:uint32 j:uint32@1i i:uint32@2i | 15507d6c 61bea1de
+//@   names hashFunction:xmss.HashFunction bdsState:*xmss.BDSState updates:uint32 skSeed:[]uint8 params:*xmss.XMSSParams pubSeed:[]uint8 addr:*[8]uint32 |  | h:uint32 k:uint32 used:uint32 lMin:uint32 level:uint32 low:uint32 j:uint32@1i i:uint32@2i | 15507d6c:treeHashMinHeightOnStack,treeHashUpdate 61bea1de:treeHashMinHeightOnStack
 //@   reads addr[0:3]
 //@   trusted "BDS traversal internals: behaviour decided by the bounded label run (C01); frame and purity by the effects back end"
 //@   pure
@@ -457,7 +457,7 @@ package xmss
 //@   assigns seed, *addr
 
 //@ func expandSeed
-//@   names hashFunction:xmss.HashFunction outSeeds:[]uint8 inSeeds:[]uint8 n:uint32 len:uint32 |  | ctr:[32]uint8 i:uint32@1i | f3de8f7a
+//@   names hashFunction:xmss.HashFunction outSeeds:[]uint8 inSeeds:[]uint8 n:uint32 len:uint32 |  | ctr:[32]uint8 i:uint32@1i | f3de8f7a:ToByteLittleEndian,prf
 //@   props C06
 //@   requires n == 32 && len <= 133 && len(outSeeds) >= len*n && len(inSeeds) >= 32
 //@   ensures[XF] hashFunction <= 2 ==> forall i_, q :: 0 <= i_ && i_ < len && 0 <= q && q < 32 ==> outSeeds[32*i_+q] == spec.prfArr(hashFunction, spec.sub(inSeeds, 32), spec.toByte32(i_))[q]
@@ -479,7 +479,7 @@ package xmss
 //@ lemma xmss.L_wots_id[XF] uses xmss.L_wots_idA,xmss.L_wots_idB,-spec.chain,-spec.wdig,-spec.wsigNode,-spec.wpkNode,-spec.wgenNode : forall hf, PS:arr, A:arr, SK:arr, sko, SG:arr, so, M:arr, mo, lw, w, len1, sh, nb, i, q_ :: 0 <= spec.wdig(M, mo, i, lw, w, len1, sh, nb) && spec.wdig(M, mo, i, lw, w, len1, sh, nb) <= w - 1 && (forall d_ :: 0 <= d_ && d_ < 32 ==> SG[so + 32*i + d_] == spec.wsigNode(hf, PS, A, SK, sko, M, mo, lw, w, len1, sh, nb, i)[d_]) && 0 <= q_ && q_ < 32 ==> spec.wpkNode(hf, PS, A, SG, so, M, mo, lw, w, len1, sh, nb, i)[q_] == spec.wgenNode(hf, PS, A, SK, sko, w, i)[q_]
 //@ pred wsigN(hf, pubSeed, A, sk, msg, p, i) := spec.wsigNode(hf, spec.sub(pubSeed, 32), A, sk, msg, p.logW, p.w, p.len1, wShift(p), wBytes(p), i)
 //@ func wotsSign
-//@   names hashFunction:xmss.HashFunction sig:[]uint8 msg:[]uint8 sk:[]uint8 params:*xmss.WOTSParams pubSeed:[]uint8 addr:*[8]uint32 |  | baseW:[]uint8 csum:uint32 i:uint32@1i len2Bytes:uint32 cSumBytes:[]uint8 cSumBaseW:[]uint8 i:uint32@2i i:uint32@3i offset:uint32 | d1a641e7 4ad0e1e6 f3a2b9e1
+//@   names hashFunction:xmss.HashFunction sig:[]uint8 msg:[]uint8 sk:[]uint8 params:*xmss.WOTSParams pubSeed:[]uint8 addr:*[8]uint32 |  | baseW:[]uint8 csum:uint32 i:uint32@1i len2Bytes:uint32 cSumBytes:[]uint8 cSumBaseW:[]uint8 i:uint32@2i i:uint32@3i offset:uint32 | d1a641e7 4ad0e1e6 f3a2b9e1:SetChainAddr,genChain
 //@   use xmss.L_chain_cong2
 //@   hide spec.chain
 //@   hide spec.bwdig
@@ -508,7 +508,7 @@ package xmss
 
 //@ pred wgenN(hf, pubSeed, A, sk, p, i) := spec.wgenNode(hf, spec.sub(pubSeed, 32), A, sk, p.w, i)
 //@ func wOTSPKGen
-//@   names hashFunction:xmss.HashFunction pk:[]uint8 sk:[]uint8 wOTSParams:*xmss.WOTSParams pubSeed:[]uint8 addr:*[8]uint32 |  | i:uint32@1i pkStartOffset:uint32 | 00f1381d
+//@   names hashFunction:xmss.HashFunction pk:[]uint8 sk:[]uint8 wOTSParams:*xmss.WOTSParams pubSeed:[]uint8 addr:*[8]uint32 |  | i:uint32@1i pkStartOffset:uint32 | 00f1381d:SetChainAddr,genChain
 //@   use xmss.L_chain_cong
 //@   hide spec.chain
 //@   uselate xmss.L_wgenNode_congA
@@ -555,7 +555,7 @@ package xmss
 //@   assigns pk, sk, bdsAll(bdsState)
 
 //@ func xmssFastUpdate
-//@   names hashFunction:xmss.HashFunction params:*xmss.XMSSParams sk:[]uint8 bdsState:*xmss.BDSState newIdx:uint32 |  | numElems:uint32 currentIdx:uint32 skSeed:[]uint8 startOffset:int pubSeed:[]uint8 otsAddr:[8]uint32 j:uint32@1i | e3303054
+//@   names hashFunction:xmss.HashFunction params:*xmss.XMSSParams sk:[]uint8 bdsState:*xmss.BDSState newIdx:uint32 |  | numElems:uint32 currentIdx:uint32 skSeed:[]uint8 startOffset:int pubSeed:[]uint8 otsAddr:[8]uint32 j:uint32@1i | e3303054:bdsRound,bdsTreeHashUpdate
 //@   props C02 C08
 //@   requires paramsOK(params) && len(sk) == 132 && bdsShape(bdsState, params.h)
 //@   panics "index too high" when newIdx >= spec.pow2(params.h)
@@ -685,7 +685,7 @@ package xmss
 // ---- C08: path independence of the traversal state (lemma functions in zz_lemmas_verif.go) ----
 
 //@ func treeHashUpdate
-//@   names hashFunction:xmss.HashFunction treeHash:*xmss.TreeHashInst bdsState:*xmss.BDSState skSeed:[]uint8 params:*xmss.XMSSParams pubSeed:[]uint8 addr:*[8]uint32 |  | n:uint32 otsAddr:[8]uint32 lTreeAddr:[8]uint32 nodeAddr:[8]uint32 nodeBuffer:[]uint8 nodeHeight:uint32 srcOffset:uint32 destOffset:uint32 | 39adbcaa
+//@   names hashFunction:xmss.HashFunction treeHash:*xmss.TreeHashInst bdsState:*xmss.BDSState skSeed:[]uint8 params:*xmss.XMSSParams pubSeed:[]uint8 addr:*[8]uint32 |  | n:uint32 otsAddr:[8]uint32 lTreeAddr:[8]uint32 nodeAddr:[8]uint32 nodeBuffer:[]uint8 nodeHeight:uint32 srcOffset:uint32 destOffset:uint32 | 39adbcaa:SetTreeHeight,SetTreeIndex,hashH
 //@   reads addr[0:3]
 //@   assigns *treeHash, bdsAll(bdsState)
 //@   trusted "BDS traversal internals: only named here so that the `reads addr[0:3]` clause of bdsTreeHashUpdate can be checked transitively"
